@@ -94,7 +94,8 @@ class Accessory:
 
 
 PK = ["honest", "adversary", "foreign", "arbitrary32", "short31", "absent"]
-CT = ["honest", "absent", "arbitrary", "truncated", "other-exchange", "adversary-encrypted"]
+CT = ["honest", "absent", "arbitrary", "truncated", "other-exchange", "adversary-encrypted", "paired-key-other-identifier"]
+BOUND_IDS = ["prefix", "suffix", "empty", "other", "longer", "lower-case"]
 IDS = ["stored", "other", "arbitrary"]
 SIGS = ["relayed-genuine", "other-exchange", "permuted", "other-id", "other-ltsk", "arbitrary", "absent"]
 ORDER = ["id,sig", "sig,id", "id,id,sig", "id,sig,extra"]
@@ -139,6 +140,13 @@ def verify_full(M):
             # a reply this accessory produced in another exchange (other controller ephemeral key)
             other = Accessory(be, eph="eA2")
             _, ct = other.m2(be.eph_pub("eC2"))
+        elif ct_sel == "paired-key-other-identifier":
+            # the right long-term key, the right session key - but the proof is bound to another identifier
+            v = ex.choice("bound_id", BOUND_IDS)
+            ident = {"prefix": hap.ACC_ID[:-1], "suffix": hap.ACC_ID[1:], "empty": "", "other": hap.OTHER_ID, "longer": hap.ACC_ID + ":DD",
+                     "lower-case": hap.ACC_ID.lower()}[v].encode()
+            sig = be.sign("A", hap.cat(be, pub, ident, ios_pub))
+            ct = be.encrypt(acc.session_key, b"PV-Msg02", be.b(tlv8_encode([(T_ID, ident), (T_SIG, sig)])))
         else:
             # the adversary knows its own ephemeral secret eX: it can derive K(eX, iosPK) and encrypt anything it can build
             k_adv = be.hkdf(be.dh("eX", ios_pub), b"Pair-Verify-Encrypt-Salt", b"Pair-Verify-Encrypt-Info")
@@ -446,6 +454,108 @@ def install_ip(M):
     return h
 
 
+def install_coap(M):
+    def h(ex):
+        from .c06 import IdealChaCha, nonce
+        from cryptography.exceptions import InvalidTag
+        from cryptography.hazmat.primitives.ciphers.aead import ChaCha20Poly1305 as RealChaCha
+        be = hap.backend(ex, M.proto)
+        acc = Accessory(be)
+        conn = object.__new__(M.coap.CoAPHomeKitConnection)
+        conn.address, conn.enc_ctx, conn.owner = "[::1]:5683", None, None
+
+        class Msg:
+            def __init__(self, code=None, payload=b"", uri=None):
+                self.code, self.payload, self.uri = code, payload, uri
+
+        class Pending:
+            def __init__(self, reply):
+                self.reply = reply
+
+            @property
+            def response(self):
+                async def r():
+                    return self.reply
+                return r()
+
+        class Client:
+            def request(self, msg):
+                d = dict(M.tlv.TLV.decode_bytes(msg.payload))
+                st = bytes(as_rope(d[T_STATE]).concrete()) if be.sym else bytes(d[T_STATE])
+                if st == b"\x01":
+                    pub, enc = acc.m2(d[T_PUBKEY])
+                    fields = [(T_STATE, b"\x02"), (T_PUBKEY, pub), (T_ENC, enc)]
+                else:
+                    fields = [(T_STATE, b"\x04")]
+                body = tlv8_encode(fields)
+                return Pending(Msg(payload=body if be.sym else bytes(body.concrete())))
+
+            async def shutdown(self):
+                pass
+
+        class Ctx:
+            @staticmethod
+            async def create_server_context(root, bind=None):
+                return Client()
+
+        class Site:
+            def add_resource(self, path, res):
+                pass
+
+        class Res:
+            Resource = object
+
+        Res.Site = Site
+
+        class NoTimeout:
+            def __init__(self, t):
+                pass
+
+            async def __aenter__(self):
+                return self
+
+            async def __aexit__(self, *a):
+                return False
+
+        saved = {k: getattr(M.coap, k) for k in ("Context", "Message", "resource", "asyncio_timeout", "ChaCha20Poly1305", "EventResource")}
+        M.coap.Context, M.coap.Message, M.coap.resource, M.coap.asyncio_timeout = Ctx, Msg, Res, NoTimeout
+        M.coap.EventResource = lambda c: None
+        if be.sym:
+            M.coap.ChaCha20Poly1305 = IdealChaCha
+        try:
+            drive(conn.do_pair_verify(hap.pairing_data()))
+        finally:
+            for k, v in saved.items():
+                setattr(M.coap, k, v)
+        ctx = conn.enc_ctx
+        mk = IdealChaCha if be.sym else RealChaCha
+        wkey, rkey, ekey = (acc.key(b"Control-Salt", b"Control-Write-Encryption-Key"), acc.key(b"Control-Salt", b"Control-Read-Encryption-Key"),
+                            acc.key(b"Event-Salt", b"Event-Read-Encryption-Key"))
+        ex.require(ctx.send_ctr == 0 and ctx.recv_ctr == 0 and ctx.event_ctr == 0, "coap: fresh keys start at counter 0")
+        n0 = nonce(0) if be.sym else bytes(nonce(0).concrete())
+
+        def opens(key, ct, want):
+            try:
+                return bool(rope_eq(mk(be.b(key)).decrypt(n0, ct, b""), want))
+            except InvalidTag:
+                return False
+
+        def accepts(fn, key, msg):
+            try:
+                return bool(rope_eq(fn(mk(be.b(key)).encrypt(n0, msg, b"")), msg))
+            except InvalidTag:
+                return False
+
+        ok1 = opens(wkey, ctx.encrypt(b"request"), b"request")
+        ok2 = accepts(ctx.decrypt, rkey, b"response")
+        ok3 = accepts(ctx.decrypt_event, ekey, b"event")
+        ex.require(ok1, "coap: requests are encrypted with Control-Write-Encryption-Key")
+        ex.require(ok2, "coap: responses are decrypted with Control-Read-Encryption-Key")
+        ex.require(ok3, "coap: events are decrypted with the key from Event-Salt / Event-Read-Encryption-Key")
+        return ex.observe([ok1, ok2, ok3])
+    return h
+
+
 def build(tier, mutate=None):
     C = copies(mutate)
     R = reals()
@@ -458,7 +568,10 @@ def build(tier, mutate=None):
              bounds={"method": METHODS, "tag": TAGS, "new session id": "8 arbitrary bytes"}, regions=["resumed", "not-resumed"]),
         Unit("install/ble", install_ble(C), install_ble(R), bounds={"exchange": "honest"}),
         Unit("install/ip", install_ip(C), install_ip(R), bounds={"exchange": "honest"}),
+        Unit("install/coap", install_coap(C), install_coap(R), bounds={"exchange": "honest"}),
     ]
+    for u in units:
+        u.diff_sample = 100000  # every proved path is also replayed with real cryptography on the real library
     return units
 
 
@@ -476,7 +589,7 @@ ASSUMPTIONS = [
     "ideal (Dolev-Yao) cryptography, DESIGN.md 4.2: keys, signatures, ciphertexts and HKDF outputs are opaque terms; a forged/altered/truncated value is 'any byte string other than the genuine one' and the real primitives are assumed to reject it; the adversary knows its own ephemeral secret, every public value and recorded messages of other exchanges, never honest secrets",
     "long-term keys are fixed concrete byte strings; identifiers are the fixed strings of harness/hap.py; arbitrary adversary fields are symbolic bytes of the real lengths",
     "on the real library the same scenarios are replayed with real X25519/Ed25519/ChaCha20-Poly1305/HKDF (model-based differential on sampled paths)",
-    "transport key installation is exercised against an honest exchange with the surrounding I/O stubbed (BLE: drive_pairing_state_machine, IP: base _connect_once/post_tlv); CoAP installation is not covered",
+    "transport key installation is exercised against an honest exchange with the surrounding I/O stubbed (BLE: drive_pairing_state_machine, IP: base _connect_once/post_tlv, CoAP: aiocoap Context/Message/resource)",
 ]
 
 
